@@ -216,6 +216,8 @@ func c02Opts(rng *lib.Rand, idx uint64) lib.GenOpts {
 		BigFileId:     4,
 		RepeatPrev:    8,
 		DevDescribe:   30,
+		Unknown253:    25,
+		ReservedBits:  4,
 		ZeroFieldDefs: 3,
 		RedefSimilar:  30,
 		// some records behind compressed-timestamp headers: a wire field must decode to its wire
